@@ -5,6 +5,7 @@ runners for `whatshap unphase` / `whatshap phase`, history emission from MC_VcfH
 """
 import json
 import os
+import random
 import re
 import shutil
 import tempfile
@@ -279,6 +280,8 @@ def random_file(rng, i):
                     {"ps": rng.randint(0, 2), "hp": rng.randint(0, 2), "pq": rng.randint(0, 2)}}
         recs.append(record_from_shape(o, pos, rng.randrange(1000), chrom="chr1" if j < 3 else "chr2"))
     sc = {"kind": "random", "samples": [f"s{k}" for k in range(ns)], "recs": recs, "hist": [{"op": "U"}, {"op": "U"}]}
+    if ns and rng.random() < 0.35:
+        sc["hist"] = [{"op": "U"}, {"op": "S", "seed": rng.randrange(10 ** 6)}, {"op": "U"}]
     if gtonly:
         sc["nodef"] = ["PS", "HP", "PQ"]
     elif ns and rng.random() < 0.15:  # PS declared with type String (seen in the wild, cf. tests/data/string_typed_ps_tag.vcf)
@@ -380,6 +383,29 @@ def scenarios(ctx):
 
 # ==============================================================================================
 # driving the real commands
+def _synthetic_phaser(src, dst, rng):
+    with open(src) as fi, open(dst, "w") as fo:
+        for line in fi:
+            if line.startswith("#") or not line.strip():
+                fo.write(line)
+                continue
+            f = line.rstrip("\n").split("\t")
+            if len(f) > 9 and f[8].split(":")[0] == "GT":
+                keys = f[8].split(":")
+                for k in range(9, len(f)):
+                    vals = f[k].split(":")
+                    als = vals[0].replace("|", "/").split("/")
+                    if len(als) >= 2 and "." not in als:
+                        rng.shuffle(als)
+                        vals[0] = "|".join(als)
+                        if "PS" in keys:
+                            while len(vals) <= keys.index("PS"):
+                                vals.append(".")
+                            vals[keys.index("PS")] = f[1]
+                        f[k] = ":".join(vals)
+            fo.write("\t".join(f) + "\n")
+
+
 def drive(sc):
     quiet()
     tmp = mktemp("c13-")
@@ -419,6 +445,20 @@ def _drive(sc, tmp):
     for op in sc["hist"]:
         if op["op"] == "U":
             cur = unphase(cur)
+        elif op["op"] == "S":
+            # a phaser in the manner of `whatshap polyphase` (any ploidy): fully called genotypes come back as a permutation of
+            # their alleles joined by '|' (with PS where the record has the key); U of that file must equal U of its source
+            if cur not in has_u and unphase(cur) is None:
+                break
+            dst = nxt
+            nxt += 1
+            paths[dst] = os.path.join(tmp, f"f{dst}.vcf")
+            _synthetic_phaser(paths[cur], paths[dst], random.Random(op.get("seed", 1)))
+            e = {"ev": "Phase", "src": cur, "dst": dst, "tag": "PS", "targets": list(range(1, len(sc["samples"]) + 1)), "exc": "",
+                 "out": {"hdr": [], "recs": []}}
+            e["out"], _, _ = project_vcf(paths[dst])
+            evs.append(e)
+            cur = dst
         else:
             if cur not in has_u and unphase(cur) is None:
                 break
